@@ -191,3 +191,126 @@ Proof.
 Qed.
 Lemma pil_end_nohead E k cs : stmt_end E k -> forallb stopc cs = true -> nohead cs (E ++ k).
 Proof. apply (end_nohead WS). Qed.
+
+(* ---- delimitedList(identifier, d): identifier (d identifier)* ---- *)
+Record member := mkMember { m_b1 : pstr; m_b2 : pstr; m_n0 : chr; m_ns : pstr }.
+Definition member_ok (m : member) : Prop :=
+  blanks WS (m_b1 m) /\ blanks WS (m_b2 m) /\ memc (m_n0 m) idch = true /\ all_in idch (m_ns m).
+Definition m_name (m : member) : pstr := m_n0 m :: m_ns m.
+Fixpoint members_text (d : chr) (ms : list member) (r : pstr) : pstr :=
+  match ms with
+  | [] => r
+  | m :: ms' => m_b1 m ++ d :: m_b2 m ++ m_n0 m :: m_ns m ++ members_text d ms' r
+  end.
+(* ZeroOrMore returns its pre-parsed position when nothing matches *)
+Definition zpos (ms : list member) (r : pstr) : pstr := match ms with [] => spre r | _ => r end.
+Lemma spre_idem x : spre (spre x) = spre x.
+Proof. apply (std_pre_idem G pil_c WS pil_comment_ok). Qed.
+Lemma spre_skip_ign x : spre (std_skip_ign WS x) = spre x.
+Proof. apply (std_pre_skip_ign G pil_c WS pil_comment_ok). Qed.
+Lemma spre_zpos ms r : spre (zpos ms r) = spre r.
+Proof. destruct ms; [apply spre_idem|reflexivity]. Qed.
+
+Section DelimitedList.
+  Variables dl an zm an2 sc lit : nat.
+  Variable d : chr.
+  Hypothesis Hdl : nth_error G dl = Some (mkNode KPass [an] true WS [pil_c] true []).
+  Hypothesis Han : nth_error G an = Some (mkNode KAnd [61; zm] true WS [pil_c] true []).
+  Hypothesis Hzm : nth_error G zm = Some (mkNode (KMany false) [an2] true WS [pil_c] true []).
+  Hypothesis Han2 : nth_error G an2 = Some (mkNode KAnd [sc; 61] true WS [pil_c] true []).
+  Hypothesis Hsc : nth_error G sc = Some (mkNode KSuppress [lit] true WS [pil_c] true []).
+  Hypothesis Hlit : nth_error G lit = Some (mkNode (KLit [d]) [] true WS [pil_c] true []).
+  Hypothesis Hd_stop : stopc d = true.
+  Hypothesis Hd_id : memc d idch = false.
+
+  (* after the list: not the delimiter (after blanks / a comment), not an identifier character *)
+  Definition list_stop (r : pstr) : Prop := nohead idch r /\ nohead [d] (spre r).
+
+  Lemma members_nohead ms r : Forall member_ok ms -> nohead idch r -> nohead idch (members_text d ms r).
+  Proof.
+    intros Hms Hr. destruct ms as [|m ms]; [exact Hr|]. cbn [members_text].
+    inversion Hms as [|? ? (Hb1 & _) _]; subst.
+    apply nohead_blanks; [vm_compute; reflexivity|exact Hb1|]. exact Hd_id.
+  Qed.
+
+  (* one more member: d identifier *)
+  Lemma ev_member full x m rest :
+    member_ok m -> spre x = d :: m_b2 m ++ m_n0 m :: m_ns m ++ rest -> nohead idch rest ->
+    evals G full an2 true (At x) (POk (At rest) [TStr (m_name m)]).
+  Proof.
+    intros (Hb1 & Hb2 & H0 & Hns) Hx Hrest.
+    eapply evals_eq.
+    - eapply evals_node_ok; [exact Han2|apply (pre_premise G full pil_c WS pil_comment_ok); repeat split|].
+      unfold pre_pos. cbn [andb ncallpre]. rewrite Hx.
+      eapply impls_and; [reflexivity|reflexivity| |].
+      + eapply evals_eq; [apply (evals_slit G full pil_c WS pil_comment_ok sc lit false true true [d] _ Hsc Hlit)|].
+        cbn [andb]. unfold lit_res. cbn [starts_with]. rewrite N.eqb_refl. reflexivity.
+      + eapply seqs_cons; [|apply seqs_nil].
+        apply (ev_ident full true _ (m_n0 m) (m_ns m) rest); [|exact H0|exact Hns|exact Hrest].
+        apply spre_blanks_stop; [exact Hb2|apply idch_stop; exact H0].
+    - reflexivity.
+  Qed.
+  Lemma ev_member_stop full x r : spre x = spre r -> nohead [d] (spre r) -> evals G full an2 true (At x) PFail.
+  Proof.
+    intros Hx Hr.
+    eapply evals_node_fail; [exact Han2|apply (pre_premise G full pil_c WS pil_comment_ok); repeat split|].
+    unfold pre_pos. cbn [andb ncallpre]. rewrite Hx.
+    eapply impls_and_fail; [reflexivity|reflexivity|].
+    eapply evals_eq; [apply (evals_slit G full pil_c WS pil_comment_ok sc lit false true true [d] _ Hsc Hlit)|].
+    cbn [andb]. unfold lit_res. rewrite (starts_with_nohead d [] _ Hr). reflexivity.
+  Qed.
+
+  Lemma loops_members full ms : forall r acc, Forall member_ok ms -> list_stop r ->
+    loops G full [pil_c] an2 (At (members_text d ms r)) acc (POk (At r) (acc ++ map (fun m => TStr (m_name m)) ms)).
+  Proof.
+    induction ms as [|m ms IH]; intros r acc Hms (Hr1 & Hr2).
+    - cbn [members_text map]. rewrite app_nil_r.
+      eapply loops_stop; [apply (skips_std G full pil_c WS pil_comment_ok)|].
+      apply (ev_member_stop full _ r); [apply spre_skip_ign|exact Hr2].
+    - inversion Hms as [|? ? Hm Hms']; subst. cbn [members_text map].
+      eapply loops_step; [apply (skips_std G full pil_c WS pil_comment_ok)| |].
+      + apply (ev_member full _ m (members_text d ms r) Hm).
+        * rewrite spre_skip_ign. destruct Hm as (Hb1 & _). apply spre_blanks_stop; [exact Hb1|exact Hd_stop].
+        * apply members_nohead; assumption.
+      + replace (acc ++ TStr (m_name m) :: map (fun m0 => TStr (m_name m0)) ms)
+          with ((acc ++ [TStr (m_name m)]) ++ map (fun m0 => TStr (m_name m0)) ms)
+          by (rewrite <- app_assoc; reflexivity).
+        apply IH; [exact Hms'|split; assumption].
+  Qed.
+  Lemma ev_delimited full (cp : bool) (x : pstr) (n0 : chr) (ns : pstr) ms r :
+  Lemma ev_delimited full cp x n0 ns ms r :
+    (if cp then spre x else x) = n0 :: ns ++ members_text d ms r ->
+    memc n0 idch = true -> all_in idch ns -> Forall member_ok ms -> list_stop r ->
+    evals G full dl cp (At x)
+      (POk (At (zpos ms r)) (TStr (n0 :: ns) :: map (fun m => TStr (m_name m)) ms)).
+  Proof.
+    intros Hx H0 Hns Hms Hr.
+    assert (Hzm' : evals G full zm true (At (members_text d ms r))
+                     (POk (At (zpos ms r)) (map (fun m => TStr (m_name m)) ms))).
+    { destruct ms as [|m ms].
+      - cbn [members_text map zpos]. eapply evals_eq.
+        + eapply evals_node_ok; [exact Hzm|apply (pre_premise G full pil_c WS pil_comment_ok); repeat split|].
+          unfold pre_pos. cbn [andb ncallpre].
+          eapply (impls_many_none G full _ false); [reflexivity|reflexivity|].
+          apply (ev_member_stop full _ r); [apply spre_idem|apply Hr].
+        + reflexivity.
+      - inversion Hms as [|? ? Hm Hms']; subst. cbn [members_text map zpos]. eapply evals_eq.
+        + eapply evals_node_ok; [exact Hzm|apply (pre_premise G full pil_c WS pil_comment_ok); repeat split|].
+          unfold pre_pos. cbn [andb ncallpre].
+          eapply impls_many; [reflexivity|reflexivity| |].
+          * apply (ev_member full _ m (members_text d ms r) Hm).
+            -- rewrite spre_idem. destruct Hm as (Hb1 & _). apply spre_blanks_stop; [exact Hb1|exact Hd_stop].
+            -- apply members_nohead; [exact Hms'|apply Hr].
+          * cbn [nign]. apply (loops_members full ms r [TStr (m_name m)] Hms' Hr).
+        + reflexivity. }
+    eapply evals_eq.
+    - eapply evals_node_ok; [exact Hdl|apply (pre_premise G full pil_c WS pil_comment_ok); repeat split|].
+      unfold pre_pos. cbn [ncallpre]. rewrite andb_true_r, Hx.
+      eapply impls_wrap; [reflexivity|reflexivity|].
+      eapply evals_node_ok; [exact Han|cbn; reflexivity|].
+      eapply impls_and; [reflexivity|reflexivity| |].
+      + apply (ev_ident full false _ n0 ns _ eq_refl H0 Hns). apply members_nohead; [exact Hms|apply Hr].
+      + eapply seqs_cons; [exact Hzm'|apply seqs_nil].
+    - reflexivity.
+  Qed.
+End DelimitedList.
